@@ -93,7 +93,7 @@ func obsClass(s *scanSpec, obs *scanObs, kind string) string {
 	}
 	fault, dry, locked := "", s.GlobalDry, false
 	for _, g := range s.Groups {
-		if len(g.K8s.GetFail)+len(g.K8s.UpdateFail)+len(g.K8s.DeleteFail) > 0 && !strings.Contains(fault, "k") {
+		if len(g.K8s.GetFail)+len(g.K8s.UpdateFail)+len(g.K8s.DeleteFail)+len(g.K8s.Conflict) > 0 && !strings.Contains(fault, "k") {
 			fault += "k"
 		}
 		if (len(g.Aws.TermInAsgFail) > 0 || g.Aws.SetDesiredFail || g.Aws.DescInstFail || g.Aws.FleetFail || g.Aws.DescribeMode != 0 || len(g.Aws.AttachFail) > 0) && !strings.Contains(fault, "a") {
